@@ -211,3 +211,36 @@ TABLE["C08"] = dict(run=lambda p, t: _policy(p, t, "options"),
                     replay=lambda p, path: smallfam.replay(p, path, driver="policy", trace_module="Policy_Trace", trace_consts="  K = 0\n  Focus = {}\n"))
 TABLE["C14"] = dict(run=lambda p, t: _policy(p, t, "policy"),
                     replay=lambda p, path: smallfam.replay(p, path, driver="policy", trace_module="Policy_Trace", trace_consts="  K = 0\n  Focus = {}\n"))
+
+# ------------------------------------------------------------------------------------------
+def _pckext_cfg(tier):
+    if tier == "thorough":
+        consts = ('  FaultTcbOrders = {"canon", "swap12", "swap1x16", "swap16x17", "swap17x18", "rot1", "rot9", "rev", "random"}\n'
+                  '  FaultExtras = {"none", "front", "back", "both"}\n  FaultTops = "all"\n')
+    else:
+        consts = '  FaultTcbOrders = {"canon", "rev", "random"}\n  FaultExtras = {"back"}\n  FaultTops = "few"\n'
+    return "CONSTANTS\n" + consts + "SPECIFICATION Spec\nINVARIANTS TypeOK ExactOrError OrderBlind ExportCase\nCHECK_DEADLOCK FALSE\n"
+
+
+PCKEXT_TRACE_CONSTS = '  FaultTcbOrders = {"canon"}\n  FaultExtras = {"back"}\n  FaultTops = "few"\n'
+
+
+def _key_pckext(call, evs):
+    c = call["input"]
+    if c["struct"] != "none":
+        return "struct=" + c["struct"]
+    if c["dev"] == "none":
+        return "order:top=%s,extras=%s,tcb=%s" % ("".join(k[0] for k in c["top"]), c["extras"], c["tcbOrder"])
+    return "%s:%s:%s" % (c["dev"], c["cls"] if c["dev"] == "class" else "-", c["target"])
+
+
+def _c13(prop, tier):
+    code, _, _ = smallfam.run(prop, tier, mc_module="PckExt_MC", mc_cfg=_pckext_cfg(tier), driver="pckext", trace_module="PckExt_Trace",
+                              trace_consts=PCKEXT_TRACE_CONSTS, key_fn=_key_pckext,
+                              required_actions=("Outer", "TopElem", "TcbElem", "Finish"),
+                              assumptions=["the SGX extension is hand-encoded DER (harness/gen/der.go) inside a real X.509 certificate with exactly six extensions",
+                                           "values are compared field by field with the ones encoded"])
+    return code
+
+
+TABLE["C13"] = dict(run=_c13, replay=lambda p, path: smallfam.replay(p, path, driver="pckext", trace_module="PckExt_Trace", trace_consts=PCKEXT_TRACE_CONSTS))
